@@ -5,11 +5,20 @@ package main
 
 import "verif/mon"
 
+// replayable wraps a check whose cases are a pure function of (seed, tier): a
+// witness is replayed by regenerating the run that produced it.
+func replayable(f func(*mon.Run)) func(*mon.Run) {
+	return func(r *mon.Run) {
+		r.AdoptReplaySeed()
+		f(r)
+	}
+}
+
 func main() {
 	mon.Main(map[string]func(*mon.Run){
-		"C01": checkC01,
-		"C05": checkC05,
-		"C06": checkC06,
-		"C07": checkC07,
+		"C01": replayable(checkC01),
+		"C05": replayable(checkC05),
+		"C06": replayable(checkC06),
+		"C07": replayable(checkC07),
 	})
 }
